@@ -303,7 +303,9 @@ impl Ctx {
             return Verdict::InvalidSignature;
         };
         let _ = content_changed;
-        let sig_valid = w.sig == self.sets[g].wires[0].sig && pk == self.sets[g].key;
+        // (several sets can commit to the same bytes - the same slice signed by different keys: the signature is valid
+        //  when it is the signature of ANY of them under the key it is verified with)
+        let sig_valid = self.sets.iter().any(|x| x.cbytes == self.sets[g].cbytes && !x.wires.is_empty() && w.sig == x.wires[0].sig && pk == x.key);
         let cache_is_own = cache.map(|c| self.sets[c].cbytes == self.sets[g].cbytes);
         match cache_is_own {
             // the identical commitment is cached: the check of the signature may be skipped - for the very signature
